@@ -4,9 +4,9 @@ CONSTANTS
   MaxOps = 4
   MaxRep = 4
   MaxPool = 3
-  Sizes = {0, 1, 2}
-  MaxParts = 3
-  Fams = {"wf", "dup"}
+  Sizes = {1}
+  MaxParts = 1
+  Fams = {"twotok", "twover", "twosame", "tokzero", "overlap664", "range664", "diffn", "pno", "twomain"}
   Take = TRUE
   Linear = FALSE
   Export = TRUE
